@@ -32,7 +32,17 @@ shipped HostContext / JBossContext / HostArchiveContext themselves - "declared f
 class, the active context is the class in the broker, a context that extends another one is another
 context; (c) in `history` the broker of the dr.* / SingleEvaluator steps is prepared by the harness or by
 the repository's hydration.initialize_broker (directory with the context's marker, or context handed
-over), and insights._run is also driven without a root."""
+over), and insights._run is also driven without a root.
+
+Round 6: (a) implementations may be switched off (dr.set_enabled(x, False), insights.apply_configs with
+`enabled: false`): world key "disabled" (applied right after the spec set is defined) and, in `history`,
+"switch" steps between evaluations (off / on again).  A switched-off implementation is still registered and
+still declared for its contexts - it yields nothing: when it is the latest one for the active context the
+spec is absent and the implementations it overrides stay silent.  (b) nested registries: a class that
+extends the registry class (or an earlier nested registry) and re-declares some of its points under the same
+name (`class ProductSpecs(BaseSpecs): conf = RegistryPoint()`), defined somewhere in the sequence; every
+later spec set subclasses any registry that exists by then.  All implementations hooked in through any of
+the registries are implementations of the one spec name, ordered by registration."""
 import itertools
 import json
 import sys
@@ -44,7 +54,12 @@ from vp.core import Sub, Reg, Violation, HarnessError
 
 PROPERTY = "C05"
 RULE = ("a registry class with 1-3 registry points (random flags) and a sequence of 1-6 direct "
-        "SpecSet subclasses built with type(); every implementation is a generated datasource bound "
+        "subclasses of it (in ~1 world in 3 also 1-2 nested registries - classes extending the registry class or an "
+        "earlier nested registry that re-declare some of its points under the same name - defined somewhere in the "
+        "sequence, later spec sets subclassing any registry defined by then) built with type(); in ~1 world in 3 one "
+        "or two implementations (preferably the latest of several for some context) are switched off with "
+        "dr.set_enabled / insights.apply_configs right after they are defined, and history has switch steps "
+        "(off / on again, same two entry points) between evaluations; every implementation is a generated datasource bound "
         "to one private context, an at-least-one list of contexts, a (chain of) context-bound helper "
         "datasource(s), a context plus a helper, or (rarely) a context-free helper; outcomes value / "
         "list value / SkipComponent / ContentException / CalledProcessError / TimeoutException / "
@@ -77,7 +92,14 @@ ASSUMPTIONS = [
     "extends (or for a class extending it) are implementations for other contexts",
     "one datasource object bound to several registry-point names is one implementation with one execution; "
     "the statement is applied per spec name (see EXCLUDED for the constellation in which it contradicts itself)",
-    "spec sets subclass the registry class directly (as every shipped spec set does)",
+    "spec sets subclass the registry class directly (as every shipped spec set does) or a nested registry - a class "
+    "extending the registry class (or another nested registry) that re-declares, under the same name, points which "
+    "the class it extends declares itself; a spec set only binds names the registry it subclasses declares; all "
+    "implementations hooked in through any of these registries are implementations of the one spec name, ordered "
+    "by the time the class that binds them was defined",
+    "a switched-off implementation (dr.set_enabled(x, False), apply_configs `enabled: false`) is still registered "
+    "and still declared for its contexts; it 'yields nothing' (that it is not executed is dr.set_enabled's promise "
+    "and is not asserted here)",
     "'declared for a context' = the context class is reachable through the implementation's "
     "dependency declarations; an implementation whose declarations reach no context is declared for "
     "none: it is never required to stay silent, and the expected value is asserted only where the "
@@ -104,7 +126,12 @@ EXCLUDED = [
     "(all other claims are); the same object bound twice to the SAME spec name is not generated",
     "context classes that inherit the marker of the class they extend (every private context has a marker of "
     "its own); directories carrying several markers",
-    "spec sets that subclass another implementing class; two contexts active at once",
+    "spec sets that subclass another implementing class; two contexts active at once; a nested registry that "
+    "re-declares a name its direct base class does not declare itself (a new, unconnected point), spec sets binding "
+    "a name the registry they subclass does not declare (not hooked in at all)",
+    "value of a point re-declared by a nested registry while a context-free implementation holds a value (looked up "
+    "registry by registry - not even registration order decides; call-log assertions are still made)",
+    "switched-off helper datasources / registry points; default_component_enabled: false (process-wide)",
     "history: pooled front ends (parallel=True / pool=...), cluster archives, compressed archives "
     "(extract), print_summary / command-line parsing of insights.run",
 ]
@@ -141,6 +168,18 @@ def _ctx_descr(case):
     return list(case.get("ctxs") or [None] * case["nctx"])
 
 
+def _inner(case):
+    """registries that extend the registry class (or an earlier one of these) and re-declare some of its
+    points under the same name: [{"base": 0 = the registry class | j = inner registry j-1, "points": [...],
+    "at": index of the spec set right before which the class is defined}]"""
+    return list(case.get("inner") or [])
+
+
+def _via(case):
+    """per spec set: the registry it subclasses (0 = the registry class, j = inner registry j-1)"""
+    return list(case.get("via") or [0] * len(case["sets"]))
+
+
 def _validate(case):
     nctx = case["nctx"]
     if not 2 <= nctx <= 5:
@@ -159,12 +198,29 @@ def _validate(case):
             raise HarnessError("bad case: helper %d refers forward" % j)
         if any(r[0] == "h" for r in h["grp"]):
             raise HarnessError("bad case: helper group may only hold contexts")
+    inner = _inner(case)
+    via = _via(case)
+    if len(via) != len(case["sets"]):
+        raise HarnessError("bad case: via")
+    reg_points = [set(range(len(case["points"])))]
+    for j, inn in enumerate(inner):
+        # a registry that extends an(other) registry of the world and re-declares some of ITS points
+        if not (0 <= inn["base"] <= j and inn["points"] and set(inn["points"]) <= reg_points[inn["base"]]
+                and len(set(inn["points"])) == len(inn["points"]) and 0 <= inn["at"] < max(1, len(case["sets"]))):
+            raise HarnessError("bad case: inner registry %d" % j)
+        if inn["base"] and inner[inn["base"] - 1]["at"] > inn["at"]:
+            raise HarnessError("bad case: inner registry %d defined before the registry it extends" % j)
+        reg_points.append(set(inn["points"]))
     creators = {}      # object id (set, point of the creating entry) -> points it is bound to so far
     for si, s in enumerate(case["sets"]):
         seen = set()
+        if not 0 <= via[si] <= len(inner) or (via[si] and inner[via[si] - 1]["at"] > si):
+            raise HarnessError("bad case: set %d extends a registry that is not defined yet" % si)
         for im in s:
             if not 0 <= im["point"] < len(case["points"]) or im["point"] in seen:
                 raise HarnessError("bad case: point index")
+            if im["point"] not in reg_points[via[si]]:
+                raise HarnessError("bad case: set %d binds a name the registry it extends does not declare" % si)
             seen.add(im["point"])
             if "same_as" in im:
                 # the datasource object created by an earlier entry (of this or an earlier spec set) is
@@ -181,6 +237,9 @@ def _validate(case):
                 raise HarnessError("bad case: implementation group may only hold contexts")
             if not im["req"] and not im["grp"]:
                 raise HarnessError("bad case: implementation without any declaration")
+    for o in case.get("disabled", []):
+        if tuple(o) not in creators:
+            raise HarnessError("bad case: disabled %r" % (o,))
 
 
 def _bindings(case):
@@ -252,9 +311,14 @@ def model(case, active):
         if _satisfied(h, active, hval) and h["out"] == "ok":
             hval[j] = "h%d" % j
     per_point, creators = _bindings(case)
+    disabled = set(tuple(o) for o in case.get("disabled", []))
+    via = _via(case)
+    redeclared = set(p for inn in _inner(case) for p in inn["points"])
     obj = {}
     for oid, im in creators.items():
-        runnable = _satisfied(im, active, hval)
+        # an implementation that is switched off (dr.set_enabled / apply_configs `enabled: false`) is still
+        # registered and still declared for its contexts; it "yields nothing"
+        runnable = _satisfied(im, active, hval) and oid not in disabled
         obj[oid] = {"decl": _declared(im, hdecl), "runnable": runnable,
                     "val": _value("v|s%d|p%d" % oid, im["out"]) if runnable else None,
                     "names": sum(1 for pp in per_point for (_si, o) in pp if o == oid)}
@@ -281,12 +345,16 @@ def model(case, active):
              "mode": "absent", "value": None, "n_impls": len(impls), "n_cands": len(cands),
              "mixed": any(len(impls[k]["decl"]) > 1 for k in cands), "n_free": len(free), "conflict": False,
              "shared": any(obj[im["oid"]]["names"] > 1 for im in impls),
-             "latest_shared": False}
+             "latest_shared": False, "latest_disabled": False,
+             "n_disabled": sum(1 for im in impls if im["oid"] in disabled),
+             "redeclared": p in redeclared,
+             "registries": len(set(via[impls[k]["id"][0]] for k in cands))}
         if cands:
             L = impls[cands[-1]]
             r["latest"] = L["id"]
             r["latest_obj"] = list(L["oid"])
             r["latest_runs"] = L["runnable"]
+            r["latest_disabled"] = L["oid"] in disabled
             r["latest_shared"] = obj[L["oid"]]["names"] > 1
             if L["oid"] in conflict:
                 r["conflict"] = True
@@ -300,6 +368,11 @@ def model(case, active):
             elif free_val:
                 r["mode"] = "unasserted"
         elif free_val:
+            r["mode"] = "unasserted"
+        if r["redeclared"] and free_val:
+            # a point that a nested registry re-declares is looked up registry by registry: where a
+            # context-free implementation holds a value next to the declared ones the statement does not
+            # say which one "overrides" (see EXCLUDED) - and here not even registration order decides
             r["mode"] = "unasserted"
         res.append(r)
     return res
@@ -368,6 +441,42 @@ def selftest():
     assert m["mode"] == "absent" and m["latest"] == [1, 0] and [x[:3] for x in m["must_not_run"]] == [[0, 0, "declared only for other contexts"]]
     assert model(case, 2)[0]["mode"] == "absent" and len(model(case, 2)[0]["must_not_run"]) == 2
     assert _related(case, 1) == set(["impl-for-base"]) and _related(case, 0) == set(["impl-for-derived"])
+    # the latest implementation for c0 is switched off: it yields nothing, the ones it overrides stay silent
+    case = {"nctx": 3, "points": [{}], "helpers": [],
+            "sets": [[im(0, req=["c0"])], [im(0, grp=["c0", "c1"])], [im(0, req=["c0"])]], "disabled": [[2, 0]]}
+    _validate(case)
+    m = model(case, 0)[0]
+    assert m["mode"] == "absent" and m["latest"] == [2, 0] and m["latest_disabled"] and not m["latest_runs"]
+    assert [x[:2] for x in m["must_not_run"]] == [[0, 0], [1, 0]]
+    m = model(case, 1)[0]
+    assert m["mode"] == "value" and m["value"] == "v|s1|p0" and not m["latest_disabled"]
+    # ... an overridden one switched off changes nothing
+    case["disabled"] = [[0, 0]]
+    m = model(case, 0)[0]
+    assert m["mode"] == "value" and m["value"] == "v|s2|p0" and len(m["must_not_run"]) == 2
+    # a nested registry re-declares the point: implementations hooked in through either registry are
+    # implementations of the one spec name, in the order in which they were registered
+    case = {"nctx": 3, "points": [{}, {}], "helpers": [{"req": [], "grp": [], "out": "ok"}],
+            "inner": [{"base": 0, "points": [0], "at": 1}], "via": [0, 1, 0],
+            "sets": [[im(0, req=["c0"]), im(1, req=["c0"])], [im(0, req=["c0"], out="skip")], [im(1, req=["c1"])]]}
+    _validate(case)
+    m = model(case, 0)
+    assert m[0]["mode"] == "absent" and m[0]["latest"] == [1, 0] and [x[:2] for x in m[0]["must_not_run"]] == [[0, 0]]
+    assert m[0]["redeclared"] and m[0]["registries"] == 2 and not m[1]["redeclared"] and m[1]["mode"] == "value"
+    # ... next to a context-free implementation with a value nothing is said about the value
+    case["sets"].append([im(0, req=["h0"])])
+    case["via"].append(0)
+    case["sets"][1][0]["out"] = "ok"
+    _validate(case)
+    assert model(case, 0)[0]["mode"] == "unasserted" and len(model(case, 0)[0]["must_not_run"]) == 1
+    for bad in ({"via": [0, 1, 0]}, {"via": [1, 0, 0, 0]}, {"inner": [{"base": 0, "points": [2], "at": 0}]},
+                {"inner": [{"base": 0, "points": [1], "at": 0}]}, {"disabled": [[1, 1]]}):
+        try:
+            _validate(dict(case, **bad))
+        except HarnessError:
+            pass
+        else:
+            raise AssertionError("accepted %r" % (bad,))
 
 
 # ------------------------------------------------------------------------------------------------
@@ -494,8 +603,31 @@ def _build(case, uid, log, parsed, provider=False):
     registry = type("Registry%d" % uid, (SpecSet,), rdict)
     setattr(mod, registry.__name__, registry)
     world["classes"].append(registry)
+    inner = _inner(case)
+    via = _via(case)
+    registries = world["registries"] = [registry] + [None] * len(inner)
+
+    def define_inner(j):
+        # `class ProductSpecs(BaseSpecs): conf = RegistryPoint()`: a registry that extends another registry
+        # and re-declares points of it under the same name; spec sets may subclass either
+        inn = inner[j]
+        idict = {"__module__": modname}
+        for p in inn["points"]:
+            flags = case["points"][p]
+            pt = RegistryPoint(multi_output=bool(flags.get("multi_output")), raw=bool(flags.get("raw")),
+                               filterable=bool(flags.get("filterable")), no_redact=bool(flags.get("no_redact")),
+                               prio=int(flags.get("prio", 0)))
+            idict["sp%d_%d" % (uid, p)] = pt
+            comps.append(pt)
+        cls = type("Inner%d_%d" % (uid, j), (registries[inn["base"]],), idict)
+        setattr(mod, cls.__name__, cls)
+        world["classes"].append(cls)
+        registries[j + 1] = cls
 
     def define_set(si):
+        for j, inn in enumerate(inner):
+            if inn["at"] == si:
+                define_inner(j)
         s = case["sets"][si]
         sdict = {"__module__": modname}
         for im in s:
@@ -519,9 +651,22 @@ def _build(case, uid, log, parsed, provider=False):
             world["impls"][(si, p)] = comp
             world["objs"][(si, p)] = comp
             comps.append(comp)
-        cls = type("Set%d_%d" % (uid, si), (registry,), sdict)
+        cls = type("Set%d_%d" % (uid, si), (registries[via[si]],), sdict)
         setattr(mod, cls.__name__, cls)
         world["classes"].append(cls)
+
+    def switch(oid, enabled, how="set_enabled"):
+        """switches one implementation off / on again the way callers do: dr.set_enabled(component, flag), or
+        the `configs` section of a manifest (insights.apply_configs; components are named there)"""
+        comp = world["objs"][tuple(oid)]
+        if how == "set_enabled":
+            _dr.set_enabled(comp, enabled)
+        elif how == "apply_configs":
+            import insights
+            insights.apply_configs({"configs": [{"name": _dr.get_name(comp), "enabled": enabled}]})
+        else:
+            raise HarnessError("bad case: switch %r" % (how,))
+    world["switch"] = switch
 
     def define_parsers():
         for p, pt in enumerate(world["points"]):
@@ -671,7 +816,8 @@ def _assert_resolution(case, active, broker, log, parsed, world, labels):
                 raise Violation("implementation of set %d for point %d has a value in the broker "
                                 "although it must not contribute under context %d" % (sid[0], p, active),
                                 **ctx)
-        if m["latest"] is not None and not m["conflict"]:
+        if m["latest"] is not None and not m["conflict"] and not m["latest_disabled"]:
+            # (that a switched-off component is not executed is dr.set_enabled's promise, not this statement's)
             n = calls.get(tuple(m["latest_obj"]), 0)
             if n != (1 if m["latest_runs"] else 0):
                 raise Violation("latest implementation for the active context (set %d, point %d) ran "
@@ -730,6 +876,18 @@ def _assert_resolution(case, active, broker, log, parsed, world, labels):
             labels.add("latest-is-shared-object")
             if m["n_cands"] >= 2:
                 labels.add("shared-object-overrides")
+        if m["n_disabled"]:
+            labels.add("point-with-disabled-impl")
+        if m["latest_disabled"]:
+            labels.add("latest-disabled")
+            if m["n_cands"] >= 2:
+                labels.add("override+latest-disabled(%s)" % m["mode"])
+        if m["redeclared"]:
+            labels.add("point-redeclared-by-nested-registry")
+            if m["n_cands"] >= 2 and m["registries"] >= 2:
+                labels.add("override-across-registries")
+                if m["mode"] == "absent":
+                    labels.add("override-across-registries+latest-yields-nothing")
         if m["n_impls"] >= 3 and m["n_cands"] >= 2 and (m["mixed"] or m["mode"] == "absent"):
             nontrivial_here = True
     return nontrivial_here
@@ -774,6 +932,10 @@ def check_world(case):
             world["define_parsers"]()
         for si in range(len(case["sets"])):
             world["define_set"](si)
+            for o in case.get("disabled", []):
+                if o[0] == si:
+                    # switched off as soon as it is loaded (blacklist / manifest applied after loading)
+                    world["switch"](o, False, case.get("switch", "set_enabled"))
             if si in eval_after:
                 nontrivial = evaluate(si + 1) or nontrivial
                 labels.add("evaluated-between-definitions")
@@ -781,6 +943,10 @@ def check_world(case):
             world["define_parsers"]()
         nontrivial = evaluate(len(case["sets"])) or nontrivial
         labels.add("driver=%s" % case.get("driver", "run"))
+        if case.get("disabled"):
+            labels.add("switched-off-through:%s" % case.get("switch", "set_enabled"))
+        if _inner(case):
+            labels.add("nested-registries=%d" % len(_inner(case)))
     finally:
         if world is not None:
             _cleanup(world["comps"], world["private_ctxs"], world["modname"], world["shipped_ctxs"])
@@ -837,10 +1003,31 @@ def _world(draw, tier):
     sets = []
     bound = {}      # object id -> points the object is bound to so far
     share = npoints >= 2 and draw(st.sampled_from([False, False, True]))
-    for si in range(draw(st.integers(1, 6))):
+    nsets = draw(st.integers(1, 6))
+    # nested registries (~1 world in 3 with >= 2 spec sets): `class ProductSpecs(BaseSpecs): conf = RegistryPoint()` -
+    # a registry that extends the registry class (or an earlier nested one) and re-declares some of the points
+    # ITS base declares; it is defined right before spec set `at`; later spec sets subclass any registry
+    # that exists by then and bind names that registry declares
+    inner = []
+    via = []
+    if nsets >= 2 and draw(st.sampled_from([False, False, True])):
+        reg_points = [list(range(npoints))]
+        for j in range(draw(st.sampled_from([1, 1, 2]))):
+            base = draw(st.integers(0, j))
+            pts = sorted(draw(st.sets(st.sampled_from(reg_points[base]), min_size=1)))
+            first = inner[base - 1]["at"] if base else 0
+            inner.append({"base": base, "points": pts, "at": draw(st.integers(first, max(first, nsets - 2)))})
+            reg_points.append(pts)
+    for si in range(nsets):
         s = []
         unused = []
-        for p in range(npoints):
+        allowed = range(npoints)
+        if inner:
+            regs = [0] + [j + 1 for j, inn in enumerate(inner) if inn["at"] <= si]
+            via.append(draw(st.sampled_from(regs + regs[1:])))
+            if via[-1]:
+                allowed = inner[via[-1] - 1]["points"]
+        for p in allowed:
             if not draw(st.sampled_from([True, True, True, False])):
                 unused.append(p)
                 continue
@@ -880,6 +1067,22 @@ def _world(draw, tier):
                                             "run_components", "run_components+run_order", "insights._run"]))}
     if any(c is not None for c in ctxs):
         case["ctxs"] = ctxs
+    if inner:
+        case["inner"] = inner
+        case["via"] = via
+    objs = sorted(bound)
+    if objs and draw(st.sampled_from([False, False, True])):
+        # ~1 world in 3: one or two implementations are switched off (dr.set_enabled(x, False), `enabled: false`
+        # in the configs of a manifest) - preferably one that is, for some context, the latest of several
+        # implementations of a name: it yields nothing
+        targets = []
+        for active in range(nctx):
+            for m in model(case, active):
+                if m["n_cands"] >= 2 and m["latest_obj"]:
+                    targets.append(tuple(m["latest_obj"]))
+        pool = sorted(set(targets)) * 3 + objs
+        case["disabled"] = [list(o) for o in sorted(draw(st.sets(st.sampled_from(pool), min_size=1, max_size=2)))]
+        case["switch"] = draw(st.sampled_from(["set_enabled", "set_enabled", "apply_configs"]))
     if case["driver"] == "run_components":
         case["prio"] = draw(st.lists(st.integers(0, 40), min_size=1, max_size=10))
     if len(sets) >= 2 and draw(st.integers(0, 2)) == 0:
@@ -1178,6 +1381,12 @@ def check_history(case):
     _validate(wcase)
     steps = case["steps"]
     for stp in steps:
+        if stp["kind"] == "switch":
+            # an implementation is switched off / on again between two evaluations (dr.set_enabled,
+            # insights.apply_configs): {"kind": "switch", "obj": n-th object of the world, "on": bool, "how": ...}
+            if stp.get("how") not in ("set_enabled", "apply_configs") or not isinstance(stp.get("on"), bool):
+                raise HarnessError("bad case: step %r" % (stp,))
+            continue
         if stp["kind"] not in ("ctx", "ser") or stp["driver"] not in (CTX_DRIVERS if stp["kind"] == "ctx" else SER_DRIVERS):
             raise HarnessError("bad case: step %r" % (stp,))
         if stp.get("seed") not in (None, "initialize_broker", "initialize_broker+context"):
@@ -1201,6 +1410,15 @@ def check_history(case):
         world["define_parsers"]()
         ctxs, points, impls, parsers = world["ctxs"], world["points"], world["impls"], world["parsers"]
         nctx = wcase["nctx"]
+        # the implementations that are switched off at the moment (the world may start with some)
+        off = set(tuple(o) for o in wcase.get("disabled", []))
+        for o in sorted(off):
+            world["switch"](o, False, wcase.get("switch", "set_enabled"))
+        all_objs = sorted(_bindings(wcase)[1])
+
+        def now():
+            """the world as it is configured at the moment"""
+            return dict(wcase, disabled=[list(o) for o in sorted(off)])
 
         def private_graph():
             g = {}
@@ -1332,7 +1550,7 @@ def check_history(case):
                 raise Violation("%s: the evaluation did not happen under the context the directory / the caller "
                                 "designates (private context %d)" % (where, i))
             try:
-                return _assert_resolution(wcase, i, broker, log, parsed, world, labels)
+                return _assert_resolution(now(), i, broker, log, parsed, world, labels)
             except Violation as v:
                 raise Violation("%s: %s" % (where, v.msg), **v.details)
 
@@ -1372,8 +1590,16 @@ def check_history(case):
         # an archive is written from an evaluation that had something to serialise (if there is one):
         # the source context of a "ser" step is taken among the contexts under which the resolver
         # expects a value for some point
-        rich = [i for i in range(nctx) if any(m["mode"] == "value" and m["value"] for m in model(wcase, i))]
         for k, stp in enumerate(steps):
+            if stp["kind"] == "switch":
+                if not all_objs:
+                    continue
+                o = all_objs[stp["obj"] % len(all_objs)]
+                world["switch"](o, stp["on"], stp["how"])
+                (off.discard if stp["on"] else off.add)(o)
+                labels.add("switch:%s:%s" % (stp["how"], "on" if stp["on"] else "off"))
+                continue
+            rich = [i for i in range(nctx) if any(m["mode"] == "value" and m["value"] for m in model(now(), i))]
             i = stp["ctx"] % nctx
             if stp["kind"] == "ser" and rich:
                 i = rich[stp["ctx"] % len(rich)]
@@ -1425,13 +1651,16 @@ def check_history(case):
                 dr.run(own, broker=b)
                 nontrivial = assert_private(i, b, "after the history, the caller's own graph under context %d" % i) or nontrivial
         labels.add("steps=%d" % len(steps))
+        if _inner(wcase):
+            labels.add("nested-registries")
         if hydrated_total:
             labels.add("history-with-hydrated-spec")
-        if len(set(stp["driver"] for stp in steps)) >= 2:
+        if len(set(stp["driver"] for stp in steps if "driver" in stp)) >= 2:
             labels.add("drivers>=2")
         # non-trivial: a spec went through an archive and is resolved again afterwards, or >= 2 steps over
         # a world in which some implementation is overridden for the active context
-        return {"nontrivial": bool(hydrated_total or (len(steps) >= 2 and "override" in labels)),
+        n_eval = sum(1 for stp in steps if stp["kind"] != "switch")
+        return {"nontrivial": bool(hydrated_total or (n_eval >= 2 and "override" in labels)),
                 "labels": sorted(labels)}
     finally:
         try:
@@ -1458,9 +1687,36 @@ def _history(draw, tier):
     # often (there "another context" is the closest it can be)
     slots = list(range(w["nctx"]))
     slots += [i for i in range(w["nctx"]) if _ancestors(w, i) or any(i in _ancestors(w, j) for j in range(w["nctx"]))]
+    # objects worth switching off / on between evaluations: the latest of several implementations for a context
+    latest_under = {}      # object -> contexts under which it is the latest of >= 2 implementations of a name
+    for a in range(w["nctx"]):
+        for m in model(dict(w, disabled=[]), a):
+            if m["n_cands"] >= 2 and m["latest_obj"]:
+                latest_under.setdefault(tuple(m["latest_obj"]), []).append(a)
+    targets = sorted(latest_under)
+    all_objs = sorted(_bindings(w)[1])
+    off = set(tuple(o) for o in w.get("disabled", []))      # what is switched off at this point of the history
     for _ in range(draw(st.sampled_from([2, 3, 1, 4, 2, 3, 5]))):
-        kind = draw(st.sampled_from(["ctx", "ctx", "ser"]))
-        stp = {"kind": kind, "ctx": draw(st.sampled_from(slots)),
+        kind = draw(st.sampled_from(["ctx", "ctx", "ctx", "ctx", "ser", "ser", "switch"]))
+        where = slots
+        if kind == "switch":
+            if not all_objs:
+                continue
+            if off and draw(st.booleans()):
+                # something that is off is switched on again
+                o = draw(st.sampled_from(sorted(off)))
+                on = True
+            else:
+                o = draw(st.sampled_from(targets * 3 + all_objs))
+                on = draw(st.sampled_from([False, False, False, True]))
+            (off.discard if on else off.add)(o)
+            steps.append({"kind": "switch", "obj": all_objs.index(o), "on": on,
+                          "how": draw(st.sampled_from(["set_enabled", "set_enabled", "apply_configs"]))})
+            # ... and the world is evaluated afterwards, preferably under a context for which that object is
+            # the latest implementation
+            kind = "ctx"
+            where = latest_under.get(o, []) * 2 + slots
+        stp = {"kind": kind, "ctx": draw(st.sampled_from(where)),
                "driver": draw(st.sampled_from(CTX_DRIVERS if kind == "ctx" else SER_DRIVERS))}
         if stp["driver"].startswith("dr.run_components"):
             stp["prio"] = draw(st.lists(st.integers(0, 40), min_size=1, max_size=10))
